@@ -126,7 +126,7 @@ func runC15(o *opts) (*summary, error) {
 			}
 			emit(role, fmt.Sprintf("192.168.1.100:%d", p), "ports")
 		}
-		for _, p := range []string{"65536", "99999", "100000", "00080", "080", "", "-1", "+80", "6e4", " 80", "80 "} {
+		for _, p := range []string{"65536", "65537", "70000", "99999", "100000", "4294967296", "00080", "080", "", "-1", "+80", "6e4", " 80", "80 "} {
 			emit(role, "192.168.1.100:"+p, "ports-odd")
 		}
 	}
@@ -166,10 +166,17 @@ func runC15(o *opts) (*summary, error) {
 	if thorough {
 		nf = 10000
 	}
-	for i := 0; i < nf; i++ {
+	// boundary addresses (all-zero, all-ones, each octet at 0 / 255 alone, loopback) x boundary ports x roles first
+	bips := [][4]byte{{0, 0, 0, 0}, {255, 255, 255, 255}, {127, 0, 0, 1}, {0, 0, 0, 1}, {1, 0, 0, 0}, {0, 255, 0, 255}, {255, 0, 255, 0}, {10, 0, 0, 0}, {192, 168, 1, 255}, {224, 0, 0, 1}, {169, 254, 0, 0}}
+	bports := []int{0, 1, 59999, 60000, 60001, 65534, 65535, 6000, 600}
+	nb := len(bips) * len(bports) * len(addrRoles)
+	for i := 0; i < nb+nf; i++ {
 		role := addrRoles[rng.Intn(4)]
 		ip := [4]byte{byte(rng.Intn(256)), byte(rng.Intn(256)), byte(rng.Intn(256)), byte(rng.Intn(256))}
 		port := []int{0, 1, 59999, 60000, 60001, 65535, rng.Intn(65536), 6000}[rng.Intn(8)]
+		if i < nb {
+			role, ip, port = addrRoles[i%len(addrRoles)], bips[(i/len(addrRoles))%len(bips)], bports[i/(len(addrRoles)*len(bips))]
+		}
 		s := fmt.Sprintf("%d.%d.%d.%d:%d", ip[0], ip[1], ip[2], ip[3], port)
 		ap, err := parseRole(role, s)
 		if err != nil {
